@@ -350,8 +350,9 @@ static SampleOut check_sample(Ctx &C, double xi, const char *what) {
       const int want = cand[i] == REG_VAC ? 0 : (cand[i] <= REG_LSTAR ? -1 : 1);
       ok |= want == s.flag;
     }
-    // a state whose density is zero within its tolerance may be called vacuum
-    if (s.flag == 0 && s.r <= btr)
+    // a state whose density is zero within its tolerance is vacuum for all
+    // purposes: the side it is attributed to carries no information
+    if (s.r <= btr)
       ok = true;
     A.note(O_FLAG, ok ? 0. : 2.);
     if (!ok)
